@@ -67,6 +67,17 @@ def run(ck, P):
           "m_mod_stash returns 0 on a path where the enqueue into mod->stashed may have failed: the caller is told the event is stashed, a later unstash "
           "hands back fewer events than were accepted", path=rules.fmt_path(st, bads) if bads else None)
 
+    # stashing is open to every RUNNING module for every event that is not high priority: what m_mod_stash may refuse on is the module's
+    # validity / state / tokens and the event itself — not other state of the module or of its context (e.g. which callback is running)
+    OKMOD = (r"^mod$", r"^m_mod_is\(mod, \d+\)$", r"^\(mod->ctx == m_ctx\(\)\)$", r"^\(mod->tb\.tokens > 0\)$", r"^\(mod->flags & \d+\)$",
+             r"^[\w>.*\-\[\]&]+$")
+    extra_ = [(a_, p_, g_.retval, g_.line) for g_ in rules.bailouts(st) if isinstance(g_.retval, int) and g_.retval < 0
+              for (a_, p_) in g_.cont_atoms if lm._mentions(a_, st.params[0]["name"]) and not any(re.match(r_.replace("mod", st.params[0]["name"]), a_) for r_ in OKMOD)]
+    ck.ob("C16.1-GUARDS", st.site("no other refusal"), not extra_,
+          "m_mod_stash refuses on the module's validity, state and tokens and on the event, nothing else" if not extra_ else
+          "m_mod_stash returns %d unless %s%s (line %d): a RUNNING module is refused a stash of an ordinary event because of state the property does not "
+          "mention" % (extra_[0][2], "" if extra_[0][1] else "!", extra_[0][0], extra_[0][3]))
+
     # ------------------------------------------------------------------ 2. trip count of the move loop
     ck.rule("C16.2-TRIPCOUNT", "R-TRIPCOUNT: in m_mod_unstash the loop that moves events from the stash into the delivery queue starts at the "
             "head of mod->stashed and, when more than `len` events are stashed, leaves after exactly `len` moves (affine solution of the exit "
@@ -94,26 +105,45 @@ def run(ck, P):
             if s not in body and cond is not None:
                 exits.append((b, s, cond, br))
     counted = []
+
+    def _iv_plus(e):
+        """a for `iv + a`, None otherwise."""
+        e = strip(e)
+        if e["k"] == "var" and e["name"] == iv:
+            return 0
+        if e["k"] == "bin" and e["op"] == "+" and S(e["l"]) == iv and cval(e["r"]) is not None:
+            return cval(e["r"])
+        if e["k"] == "bin" and e["op"] == "+" and S(e["r"]) == iv and cval(e["l"]) is not None:
+            return cval(e["l"])
+        return None
+    MIRROR = {"==": "==", "!=": "!=", "<": ">", ">": "<", "<=": ">=", ">=": "<="}
+    NEGATE = {"==": "!=", "!=": "==", "<": ">=", ">=": "<", ">": "<=", "<=": ">"}
     for (b, s, cond, br) in exits:
         c = strip(cond)
-        if c["k"] == "bin" and c["op"] in ("==", ">=", ">") and S(c["r"]) == lenp:
-            l = strip(c["l"])
-            a = None
-            if l["k"] == "var" and l["name"] == iv:
-                a = 0
-            elif l["k"] == "bin" and l["op"] == "+" and S(l["l"]) == iv and cval(l["r"]) is not None:
-                a = cval(l["r"])
-            elif l["k"] == "bin" and l["op"] == "+" and S(l["r"]) == iv and cval(l["l"]) is not None:
-                a = cval(l["l"])
-            if a is None or br is not True:
+        neg = False
+        while c["k"] == "un" and c["op"] == "!":
+            c = strip(c["e"])
+            neg = not neg
+        if c["k"] == "bin" and c["op"] in MIRROR and (S(c["r"]) == lenp or S(c["l"]) == lenp) and br in (True, False):
+            # the loop is left when (iv + a) OP len holds: bring the comparison into that form whichever way round it is written and
+            # whichever arm leaves the loop (`while (moved < len)` leaves on the false arm: moved >= len)
+            if S(c["r"]) == lenp:
+                a, op = _iv_plus(c["l"]), c["op"]
+            else:
+                a, op = _iv_plus(c["r"]), MIRROR[c["op"]]
+            if (br is False) != neg:
+                op = NEGATE[op]
+            if a is None or op not in ("==", ">=", ">"):
                 raise AnalysisBroken("m_mod_unstash: exit test '%s' is not of the modelled form idx + a REL len" % S(cond))
-            if c["op"] == ">":
+            if op == ">":
                 a -= 1
             counted.append((b, a, S(cond)))
         elif S(c) in ("m_itr",) or c["k"] == "var" or (c["k"] == "bin" and c["op"] in ("!=", "==") and strip(c["l"])["k"] == "var"
                                                        and (strip(c["r"])["k"] == "null" or cval(c["r"]) == 0)) \
                 or (c["k"] == "un" and c["op"] == "!" and strip(c["e"])["k"] == "var"):
             continue   # iterator exhaustion, however the NULL test is spelt
+        elif any(a_ == S(mv.e) and p_ is True for (a_, p_) in lm.atoms(cond, br)):
+            continue   # the move itself failed (allocation): outside the property's quantifier, see DESIGN §10.7
         else:
             raise AnalysisBroken("m_mod_unstash: loop exit '%s' not modelled (R-TRIPCOUNT handles counted exits on `%s`)" % (S(cond), lenp))
     if not counted:
@@ -157,7 +187,8 @@ def run(ck, P):
               (cs, "before" if before else "after", moved.replace("+0", "").replace("-0", ""), "= len" if ok else "≠ len: unstash(n) hands back the wrong number"))
         # the iterator is released on the early exit
         exit_blocks = [s for (bb, s, c, br) in exits if bb == b]
-        fr = any(is_free_call(e) for sb in exit_blocks for e in us.blocks[sb].events)
+        dom_ = us.dominators()
+        fr = any(is_free_call(e) and any(sb == e.block.id or sb in dom_[e.block.id] for sb in exit_blocks) for e in us.events())
         ck.ob("C16.2-TRIPCOUNT", us.site("iterator freed on break"), fr, "early exit releases the iterator: %s" % fr, nontrivial=False)
     # an empty (or short) stash is an answer, not an error: the call reports how many events it moved, 0 included
     refusals = [g for g in rules.bailouts(us) if any(re.search(r"->stashed\b", a_) for (a_, _p) in g.cont_atoms) and isinstance(g.retval, int) and g.retval < 0]
